@@ -23,16 +23,17 @@ import (
 )
 
 const (
-	c05rvUnk = 0
-	c05rvT   = 1
-	c05rvF   = 2
+	c05rvUnk    = 0 // the mutex is not held (or nothing is known)
+	c05rvT      = 1 // mutex held since the flag was read true
+	c05rvF      = 2 // mutex held since the flag was read false
+	c05rvLocked = 3 // mutex held, flag not read yet
 )
 
-func c05Rv(g int) int       { return g % 3 }
-func c05Claimed(g int) bool { return g/3 == 1 }
+func c05Rv(g int) int       { return g % 4 }
+func c05Claimed(g int) bool { return g/4 == 1 }
 func c05MkRun(rv int, claimed bool) int {
 	if claimed {
-		return rv + 3
+		return rv + 4
 	}
 	return rv
 }
@@ -64,7 +65,10 @@ func (a *c05) lockOpOnMu(in ssa.Instruction) bool {
 
 // runFlow builds the running/claimed flow. onlyRoot != nil: only that function is a root.
 func (a *c05) runFlow() *c05Flow {
-	f := &c05Flow{a: a, G: 6, Fresh: 0}
+	// The mutex state is part of the flow (not taken from the lockset engine), so
+	// that code running inside a callback such as withLock(func(){...}) or in a
+	// helper entered with the mutex held is judged in its caller's state.
+	f := &c05Flow{a: a, G: 8, K: 1, Fresh: 0}
 	f.Tracked = func(v ssa.Value) bool {
 		if a.isRunningLoad(v) {
 			return true
@@ -77,21 +81,24 @@ func (a *c05) runFlow() *c05Flow {
 		return false
 	}
 	f.Step = func(in ssa.Instruction, g int) (int, bool) {
-		if a.lockOpOnMu(in) {
-			return c05MkRun(c05rvUnk, c05Claimed(g)), true
+		if ci, ok := in.(ssa.CallInstruction); ok {
+			if id, kind, ok := a.e.lockOp(ci); ok && id == a.lockID {
+				if kind == opLock || kind == opRLock {
+					return c05MkRun(c05rvLocked, c05Claimed(g)), true
+				}
+				return c05MkRun(c05rvUnk, c05Claimed(g)), true
+			}
 		}
 		if st, ok := in.(*ssa.Store); ok {
 			if _, isR := c05FieldAddr(st.Addr, a.fRunning); isR {
 				k, isK := st.Val.(*ssa.Const)
-				held := a.e.At(in)[a.lockID] == ModeW
 				switch {
 				case isK && k.Value != nil && k.Value.String() == "true":
-					// rv != unknown implies the mutex has been held since the flag was read
-					if c05Rv(g) == c05rvF {
-						return c05MkRun(c05rvT, true), false
-					}
-					if !held {
-						return c05MkRun(c05rvUnk, c05Claimed(g)), false
+					switch c05Rv(g) {
+					case c05rvF:
+						return c05MkRun(c05rvT, true), false // read false, set true, mutex held throughout: claimed
+					case c05rvUnk:
+						return g, false
 					}
 					return c05MkRun(c05rvT, c05Claimed(g)), false
 				case isK && k.Value != nil && k.Value.String() == "false":
@@ -100,7 +107,11 @@ func (a *c05) runFlow() *c05Flow {
 					// go away (Stop's handshake does), so rv is kept.
 					return c05MkRun(c05Rv(g), false), false
 				default:
-					return c05MkRun(c05rvUnk, false), false
+					rv := c05Rv(g)
+					if rv == c05rvT || rv == c05rvF {
+						rv = c05rvLocked
+					}
+					return c05MkRun(rv, false), false
 				}
 			}
 		}
@@ -111,9 +122,10 @@ func (a *c05) runFlow() *c05Flow {
 			return g
 		}
 		ld := v.(ssa.Instruction)
-		if a.e.At(ld)[a.lockID] != ModeW || a.e.At(at)[a.lockID] != ModeW || ld.Parent() != at.Parent() {
-			return g
+		if c05Rv(g) == c05rvUnk || ld.Parent() != at.Parent() {
+			return g // not under the mutex now
 		}
+		// same critical section: no acquisition of the mutex between the read and here
 		sec := a.section(at.Parent())
 		if sec[ld] != sec[at] {
 			return g
@@ -197,7 +209,9 @@ func (a *c05) describeRun(in ssa.Instruction) func(g int) string {
 		{
 			switch c05Rv(g) {
 			case c05rvUnk:
-				s += "without the mutex, or without having tested the running flag since the mutex was taken"
+				s += "without the mutex"
+			case c05rvLocked:
+				s += "with the mutex held but without having tested the running flag since it was taken"
 			case c05rvT:
 				s += "on the branch where the running flag is true"
 			case c05rvF:
@@ -542,7 +556,7 @@ func (a *c05) checkTwins() {
 					for k, arg := range x.Call.Args {
 						if k < len(h.Params) && types.Identical(h.Params[k].Type(), v.Type()) {
 							takes = true
-							if arg == v {
+							if c05SameVar(arg, v) {
 								passes = true
 							}
 						}
